@@ -16,7 +16,7 @@ from . import c01
 ID = 'C02'
 RULE = ('C01 model generator (|potential| <= 50 when the history contains krondot) x random history of 6-12 '
         'operations from {project, calculate_many_marginals, krondot, datavector, save+load, populate cache, drop '
-        'cache}; distinct = content hash of model+history; non-trivial = domain has >= 2 cells')
+        'cache, synthetic_data}; distinct = content hash of model+history; non-trivial = domain has >= 2 cells')
 ANCHORS = ['GraphicalModel.project', 'GraphicalModel.calculate_many_marginals', 'GraphicalModel.krondot',
            'GraphicalModel.datavector', 'GraphicalModel.save', 'GraphicalModel.load', 'variable_elimination_logspace',
            'variable_elimination', 'greedy_order']
@@ -28,7 +28,7 @@ PLAN = {
     'quick': dict(cases=480, budget_s=60, case_timeout=90, min_cases=100),
     'thorough': dict(cases=15000, budget_s=600, case_timeout=180, min_cases=2500),
 }
-OPS = ['project', 'project', 'project', 'bulk', 'krondot', 'datavector', 'reload', 'cache', 'uncache']
+OPS = ['project', 'project', 'project', 'bulk', 'krondot', 'datavector', 'reload', 'cache', 'uncache', 'synthetic']
 
 
 def _rand_tuple(rng, attrs, kmax=None):
@@ -69,6 +69,8 @@ def gen_case(rng, tier, idx):
             ops.append(('krondot', mats))
         elif nm == 'datavector':
             ops.append(('datavector', bool(rng.rand() < 0.5)))
+        elif nm == 'synthetic':
+            ops.append(('synthetic', int(gen.pick(rng, [1, 7, 60, 300])), gen.pick(rng, ['round', 'round', 'sample']), int(rng.randint(2 ** 31))))
         else:
             ops.append((nm,))
     base['ops'] = ops
@@ -78,8 +80,8 @@ def gen_case(rng, tier, idx):
 
 def describe(case):
     d = c01.describe(dict(case, kind='static'))
-    d['history'] = [(o[0], [list(x) for x in o[1]] if o[0] == 'bulk' else (list(o[1]) if o[0] == 'project' else
-                                                                       ([list(m.shape) for m in o[1]] if o[0] == 'krondot' else list(o[1:]))))
+    d['history'] = [(o[0], [list(x) for x in o[1]] if o[0] == 'bulk' else (list(o[1]) if o[0] == 'project' else (list(o[1:3]) if o[0] == 'synthetic' else
+                                                                       ([list(m.shape) for m in o[1]] if o[0] == 'krondot' else list(o[1:])))))
                     for o in case['ops']]
     return d
 
@@ -181,6 +183,11 @@ def run_case(case, ctx):
                      'project after save+load', total)
                 full = model.datavector(flatten=False)
                 _cmp(ctx, 'after_reload', None, full, P, rtol, atol, 'datavector after save+load', total)
+            elif op[0] == 'synthetic':
+                # using the model (generating records) must not change what it answers afterwards
+                np.random.seed(op[3] % (2 ** 32))
+                model.synthetic_data(rows=op[1], method=op[2])
+                ctx.mon('synthetic_data_calls')
             elif op[0] == 'cache':
                 model.marginals = model.belief_propagation(model.potentials)
             elif op[0] == 'uncache':
